@@ -8,27 +8,29 @@
 #if defined(H_ADD)
 /* NR, NC, ALIAS: 0 C=NULL, 1 C distinct dirty, 2 C==A, 3 C==B, 4 A==B (C distinct), 5 C==A==B */
 void harness(void) {
+  verif_init(0);
   enum { W = WORDS(NC), RS = (W & 1) ? W + 1 : W };
-  mzd_t *A = vmat(NR, NC);
-  mzd_t *B = (ALIAS == 4 || ALIAS == 5) ? A : vmat(NR, NC);
+  mzd_t *A = vop(NR, NC, 0);
+  mzd_t *B = (ALIAS == 4 || ALIAS == 5) ? A : vop(NR, NC, 1);
   static word a0[NR * W], b0[NR * W], sa[NR * RS], sb[NR * RS];
   ref_from_mzd(a0, W, A); ref_from_mzd(b0, W, B);
   mzd_t *C = NULL;
-  if (ALIAS == 1 || ALIAS == 4) C = vmat(NR, NC);
+  if (ALIAS == 1 || ALIAS == 4) C = vop(NR, NC, 2);
   if (ALIAS == 2 || ALIAS == 5) C = A;
   if (ALIAS == 3) C = B;
   vsnap(sa, A); vsnap(sb, B);
 #ifdef USE_UNDERSCORE
-  mzd_t *R = _mzd_add(C ? C : mzd_init(NR, NC), A, B);
+  mzd_t *R = _mzd_add(C ? C : vop_raw(NR, NC, 2, 0), A, B);
 #else
   mzd_t *R = mzd_add(C, A, B);
 #endif
   VASSERT(C == NULL || R == C, "returns the supplied destination");
   VASSERT(R->nrows == NR && R->ncols == NC, "result dims");
   for (int i = 0; i < NR * W; ++i) a0[i] ^= b0[i];
-  VASSERT(ref_eq_mzd(a0, W, R, 1), "C = A + B entry-wise, padding zero");
+  VASSERT(ref_eq_mzd(a0, W, R, VOWNED(R)), "C = A + B entry-wise, padding zero");
   if (R != A) VASSERT(vsnap_same(sa, A), "A unchanged");
   if (R != B) VASSERT(vsnap_same(sb, B), "B unchanged");
+  VFRAMES();
   VDONE();
 }
 #endif
@@ -36,25 +38,27 @@ void harness(void) {
 #if defined(H_TRANSPOSE)
 /* NR, NC; DSTM 0/1 */
 void harness(void) {
+  verif_init(0);
   enum { W = WORDS(NC), WT = WORDS(NR), RS = (W & 1) ? W + 1 : W };
-  mzd_t *A = vmat(NR, NC);
+  mzd_t *A = vop(NR, NC, 0);
   static word sa[NR * RS], ref[NC * WT];
   vsnap(sa, A);
-  mzd_t *D = DSTM ? vmat(NC, NR) : NULL;
+  mzd_t *D = DSTM ? vop(NC, NR, 2) : NULL;
   mzd_t *R = mzd_transpose(D, A);
   VASSERT(D == NULL || R == D, "returns the supplied destination");
   VASSERT(R->nrows == NC && R->ncols == NR, "result dims");
   ref_zero(ref, NC * WT);
   for (int i = 0; i < NR; ++i)
     for (int j = 0; j < NC; ++j) ref_set(ref, WT, j, i, mzd_row_const(A, i)[j / 64] >> (j % 64));
-  VASSERT(ref_eq_mzd(ref, WT, R, 1), "T[j][i] == A[i][j], padding zero");
+  VASSERT(ref_eq_mzd(ref, WT, R, VOWNED(R)), "T[j][i] == A[i][j], padding zero");
   VASSERT(vsnap_same(sa, A), "A unchanged");
 #ifdef TWICE
   mzd_t *R2 = mzd_transpose(NULL, R);
   static word a0[NR * W];
   ref_from_mzd(a0, W, A);
-  VASSERT(ref_eq_mzd(a0, W, R2, 1), "transposing twice gives the original");
+  VASSERT(ref_eq_mzd(a0, W, R2, VOWNED(R2)), "transposing twice gives the original");
 #endif
+  VFRAMES();
   VDONE();
 }
 #endif
@@ -66,18 +70,19 @@ void harness(void) {
 #define DC 70
 #endif
 void harness(void) {
+  verif_init(0);
   enum { W = WORDS(NC), RS = (W & 1) ? W + 1 : W, NR2 = NR + DR, NC2 = NC + DC, W2 = WORDS(NC2) };
-  mzd_t *A = vmat(NR, NC);
+  mzd_t *A = vop(NR, NC, 0);
   static word sa[NR * RS], a0[NR * W], d0[NR2 * W2];
   vsnap(sa, A); ref_from_mzd(a0, W, A);
   mzd_t *D = NULL;
-  if (DSTM == 1) D = vmat(NR, NC);
-  if (DSTM == 2) { D = vmat(NR2, NC2); ref_from_mzd(d0, W2, D); }
+  if (DSTM == 1) D = vop(NR, NC, 2);
+  if (DSTM == 2) { D = vop(NR2, NC2, 2); ref_from_mzd(d0, W2, D); }
   mzd_t *R = mzd_copy(D, A);
   VASSERT(D == NULL || R == D, "returns the supplied destination");
   if (DSTM != 2) {
     VASSERT(R->nrows == NR && R->ncols == NC, "dims");
-    VASSERT(ref_eq_mzd(a0, W, R, 1), "copy equals source, padding zero");
+    VASSERT(ref_eq_mzd(a0, W, R, VOWNED(R)), "copy equals source, padding zero");
   } else {
     /* documented: target may be larger; the source lands in the top-left corner, rest untouched */
     word m = vmask(NC);
@@ -86,9 +91,10 @@ void harness(void) {
         word keep = (j == W - 1) ? ~m : 0;
         d0[i * W2 + j] = (d0[i * W2 + j] & keep) | a0[i * W + j];
       }
-    VASSERT(ref_eq_mzd(d0, W2, R, 1), "copy into larger target: top-left = source, rest unchanged");
+    VASSERT(ref_eq_mzd(d0, W2, R, VOWNED(R)), "copy into larger target: top-left = source, rest unchanged");
   }
   VASSERT(vsnap_same(sa, A), "source unchanged");
+  VFRAMES();
   VDONE();
 }
 #endif
@@ -96,9 +102,10 @@ void harness(void) {
 #if defined(H_COPYROW)
 /* B (NRB x NCB) row IB <- A (NRA x NC) row JA ; NCB >= NC */
 void harness(void) {
+  verif_init(0);
   enum { W = WORDS(NC), WB = WORDS(NCB), RS = (W & 1) ? W + 1 : W };
-  mzd_t *A = vmat(NRA, NC);
-  mzd_t *B = vmat(NRB, NCB);
+  mzd_t *A = vop(NRA, NC, 0);
+  mzd_t *B = vop(NRB, NCB, 2);
   static word sa[NRA * RS], a0[NRA * W], b0[NRB * WB];
   vsnap(sa, A); ref_from_mzd(a0, W, A); ref_from_mzd(b0, WB, B);
   mzd_copy_row(B, IB, A, JA);
@@ -107,22 +114,25 @@ void harness(void) {
     word keep = (j == W - 1) ? ~m : 0;
     b0[IB * WB + j] = (b0[IB * WB + j] & keep) | a0[JA * W + j];
   }
-  VASSERT(ref_eq_mzd(b0, WB, B, 1), "row copied to columns [0,ncols(A)), everything else unchanged");
+  VASSERT(ref_eq_mzd(b0, WB, B, VOWNED(B)), "row copied to columns [0,ncols(A)), everything else unchanged");
   VASSERT(vsnap_same(sa, A), "source unchanged");
+  VFRAMES();
   VDONE();
 }
 #endif
 
 #if defined(H_SETUI)
 void harness(void) {
+  verif_init(0);
   enum { W = WORDS(NC) };
-  mzd_t *A = vmat(NR, NC);
+  mzd_t *A = vop(NR, NC, 2);
   unsigned int v = (unsigned int)vin_int();
   mzd_set_ui(A, v);
   static word ref[NR * W];
   ref_zero(ref, NR * W);
   for (int i = 0; i < NR && i < NC; ++i) ref_set(ref, W, i, i, v & 1);
-  VASSERT(ref_eq_mzd(ref, W, A, 1), "set_ui: zero / identity scaled by value mod 2");
+  VASSERT(ref_eq_mzd(ref, W, A, VOWNED(A)), "set_ui: zero / identity scaled by value mod 2");
+  VFRAMES();
   VDONE();
 }
 #endif
@@ -130,19 +140,21 @@ void harness(void) {
 #if defined(H_SUBMATRIX)
 /* parent PR x PC ; [R0,R1) x [C0,C1) ; DSTM 0/1 */
 void harness(void) {
+  verif_init(0);
   enum { W = WORDS(PC), RS = (W & 1) ? W + 1 : W, SR = R1 - R0, SC = C1 - C0, WS = WORDS(SC) };
-  mzd_t *M = vmat(PR, PC);
+  mzd_t *M = vop(PR, PC, 0);
   static word sm[PR * RS], ref[SR * WS];
   vsnap(sm, M);
-  mzd_t *D = DSTM ? vmat(SR, SC) : NULL;
+  mzd_t *D = DSTM ? vop(SR, SC, 2) : NULL;
   mzd_t *S = mzd_submatrix(D, M, R0, C0, R1, C1);
   VASSERT(D == NULL || S == D, "returns the supplied destination");
   VASSERT(S->nrows == SR && S->ncols == SC, "dims");
   ref_zero(ref, SR * WS);
   for (int i = 0; i < SR; ++i)
     for (int j = 0; j < SC; ++j) ref_set(ref, WS, i, j, mzd_row_const(M, R0 + i)[(C0 + j) / 64] >> ((C0 + j) % 64));
-  VASSERT(ref_eq_mzd(ref, WS, S, 1), "S[i][j] == M[r0+i][c0+j], padding zero");
+  VASSERT(ref_eq_mzd(ref, WS, S, VOWNED(S)), "S[i][j] == M[r0+i][c0+j], padding zero");
   VASSERT(vsnap_same(sm, M), "source unchanged");
+  VFRAMES();
   VDONE();
 }
 #endif
@@ -150,11 +162,12 @@ void harness(void) {
 #if defined(H_CONCAT)
 /* A: NR x NCA, B: NR x NCB */
 void harness(void) {
+  verif_init(0);
   enum { WA = WORDS(NCA), WB = WORDS(NCB), NCC = NCA + NCB, WC = WORDS(NCC), RSA = (WA & 1) ? WA + 1 : WA, RSB = (WB & 1) ? WB + 1 : WB };
-  mzd_t *A = vmat(NR, NCA), *B = vmat(NR, NCB);
+  mzd_t *A = vop(NR, NCA, 0), *B = vop(NR, NCB, 1);
   static word sa[NR * RSA], sb[NR * RSB], ref[NR * WC];
   vsnap(sa, A); vsnap(sb, B);
-  mzd_t *D = DSTM ? vmat(NR, NCC) : NULL;
+  mzd_t *D = DSTM ? vop(NR, NCC, 2) : NULL;
   mzd_t *C = mzd_concat(D, A, B);
   VASSERT(D == NULL || C == D, "returns the supplied destination");
   VASSERT(C->nrows == NR && C->ncols == NCC, "dims");
@@ -163,8 +176,9 @@ void harness(void) {
     for (int j = 0; j < NCA; ++j) ref_set(ref, WC, i, j, mzd_row_const(A, i)[j / 64] >> (j % 64));
     for (int j = 0; j < NCB; ++j) ref_set(ref, WC, i, NCA + j, mzd_row_const(B, i)[j / 64] >> (j % 64));
   }
-  VASSERT(ref_eq_mzd(ref, WC, C, 1), "C = [A | B], padding zero");
+  VASSERT(ref_eq_mzd(ref, WC, C, VOWNED(C)), "C = [A | B], padding zero");
   VASSERT(vsnap_same(sa, A) && vsnap_same(sb, B), "sources unchanged");
+  VFRAMES();
   VDONE();
 }
 #endif
@@ -172,17 +186,19 @@ void harness(void) {
 #if defined(H_STACK)
 /* A: NRA x NC, B: NRB x NC */
 void harness(void) {
+  verif_init(0);
   enum { W = WORDS(NC), RS = (W & 1) ? W + 1 : W };
-  mzd_t *A = vmat(NRA, NC), *B = vmat(NRB, NC);
+  mzd_t *A = vop(NRA, NC, 0), *B = vop(NRB, NC, 1);
   static word sa[NRA * RS], sb[NRB * RS], ref[(NRA + NRB) * W];
   vsnap(sa, A); vsnap(sb, B);
-  mzd_t *D = DSTM ? vmat(NRA + NRB, NC) : NULL;
+  mzd_t *D = DSTM ? vop(NRA + NRB, NC, 2) : NULL;
   mzd_t *C = mzd_stack(D, A, B);
   VASSERT(D == NULL || C == D, "returns the supplied destination");
   VASSERT(C->nrows == NRA + NRB && C->ncols == NC, "dims");
   ref_from_mzd(ref, W, A); ref_from_mzd(ref + NRA * W, W, B);
-  VASSERT(ref_eq_mzd(ref, W, C, 1), "C = [A ; B], padding zero");
+  VASSERT(ref_eq_mzd(ref, W, C, VOWNED(C)), "C = [A ; B], padding zero");
   VASSERT(vsnap_same(sa, A) && vsnap_same(sb, B), "sources unchanged");
+  VFRAMES();
   VDONE();
 }
 #endif
@@ -190,11 +206,12 @@ void harness(void) {
 #if defined(H_EXTRACT)
 /* A: NR x NC ; UPPER 1/0 ; DSTM 0/1 */
 void harness(void) {
+  verif_init(0);
   enum { W = WORDS(NC), RS = (W & 1) ? W + 1 : W, KK = (NR < NC ? NR : NC), WK = WORDS(KK) };
-  mzd_t *A = vmat(NR, NC);
+  mzd_t *A = vop(NR, NC, 0);
   static word sa[NR * RS], ref[KK * WK];
   vsnap(sa, A);
-  mzd_t *D = DSTM ? vmat(KK, KK) : NULL;
+  mzd_t *D = DSTM ? vop(KK, KK, 2) : NULL;
   mzd_t *R = UPPER ? mzd_extract_u(D, A) : mzd_extract_l(D, A);
   VASSERT(D == NULL || R == D, "returns the supplied destination");
   VASSERT(R->nrows == KK && R->ncols == KK, "dims");
@@ -202,8 +219,9 @@ void harness(void) {
   for (int i = 0; i < KK; ++i)
     for (int j = 0; j < KK; ++j)
       if (UPPER ? (j >= i) : (j <= i)) ref_set(ref, WK, i, j, mzd_row_const(A, i)[j / 64] >> (j % 64));
-  VASSERT(ref_eq_mzd(ref, WK, R, 1), "triangle (incl. diagonal) extracted, other triangle zero");
+  VASSERT(ref_eq_mzd(ref, WK, R, VOWNED(R)), "triangle (incl. diagonal) extracted, other triangle zero");
   VASSERT(vsnap_same(sa, A), "source unchanged");
+  VFRAMES();
   VDONE();
 }
 #endif
